@@ -170,6 +170,8 @@ class C13(CtxCheck):
             if m.state == "inactive":
                 ops.append(("enter", m.idx, False))
                 ops.append(("enter", m.idx, True))
+                if u.ctxs[m.idx].parent is None and not any(op[0] == "enter" and op[2] == "fault" for op in u.hist):
+                    ops.append(("enter", m.idx, "fault"))
             elif m.state == "open":
                 hook = getattr(m, "hook", False)
                 ops.append(("leave", m.idx, "clean"))
